@@ -27,9 +27,11 @@ ASSUMPTIONS = ["simulated cluster (vlib/simkafka), virtual-time loop with exact 
 _SHIM = [False]
 WORKLOADS = ["producer_plain", "producer_idempotent", "producer_txn", "consumer_group", "consumer_groupless",
              # the application drops its subscription/assignment right before stop() (a common shutdown sequence)
-             "consumer_group_unsub", "consumer_groupless_unsub"]
+             "consumer_group_unsub", "consumer_groupless_unsub",
+             # a group-less consumer that subscribes by topic: its assignment is replaced when the topic grows
+             "consumer_groupless_subscribe"]
 STATES = ["healthy", "node_refusing", "node_blackholed", "coordinator_refusing", "coordinator_blackholed", "failover",
-          "commits_refused"]
+          "commits_refused", "fenced"]
 CFG = {"request_timeout_ms": 400, "retry_backoff_ms": 20, "session_timeout_ms": 1000, "rebalance_timeout_ms": 800,
        "heartbeat_interval_ms": 100}
 RUN_FOR = 1.2
@@ -72,6 +74,10 @@ async def _scenario(workload, state, stop_at, obs, loop, net):
     elif state == "failover":
         env += [{"at": t_ev, "ev": "move_group_coord", "to": 0, "keep_state": False}, {"at": t_ev, "ev": "move_txn_coord", "to": 0},
                 {"at": t_ev + 0.05, "ev": "move_leader", "topic": "t0", "partition": 1, "to": 0}]
+    if state == "fenced":
+        # the transaction coordinator fences the producer (INVALID_PRODUCER_EPOCH on its second AddPartitionsToTxn): the
+        # sender task ends with a fatal error long before stop() is called
+        c.set_faults([{"sel": "add_partitions", "k": 1, "act": "error", "code": 47}])
     if state == "commits_refused":
         # the coordinator answers every OffsetCommit but the first with REBALANCE_IN_PROGRESS (the member's
         # generation stays valid, so it is still a member that has to leave on stop())
@@ -123,6 +129,11 @@ async def _scenario(workload, state, stop_at, obs, loop, net):
             kw.update(group_id="g", session_timeout_ms=CFG["session_timeout_ms"], heartbeat_interval_ms=CFG["heartbeat_interval_ms"],
                       rebalance_timeout_ms=CFG["rebalance_timeout_ms"], auto_commit_interval_ms=100)
             client = AIOKafkaConsumer("t0", **kw)
+        elif workload == "consumer_groupless_subscribe":
+            client = AIOKafkaConsumer("t0", **dict(kw, group_id=None))
+            env2 = [{"at": 0.3, "ev": "add_partitions", "topic": "t0", "count": 1},
+                    {"at": 0.8, "ev": "add_partitions", "topic": "t0", "count": 1}]
+            c.schedule(env2)
         else:
             client = AIOKafkaConsumer(**dict(kw, group_id=None))
             client.assign([TopicPartition("t0", 0), TopicPartition("t0", 1)])
@@ -357,9 +368,12 @@ def cases(shard, nshards, stride):
     i = 0
     for w in WORKLOADS:
         for s in STATES:
-            if w in ("producer_plain", "consumer_groupless", "consumer_groupless_unsub") and s.startswith("coordinator"):
+            if w in ("producer_plain", "consumer_groupless", "consumer_groupless_unsub", "consumer_groupless_subscribe") \
+                    and s.startswith("coordinator"):
                 continue          # no coordinator involved
             if s == "commits_refused" and w not in ("consumer_group", "consumer_group_unsub"):
+                continue
+            if s == "fenced" and w != "producer_txn":
                 continue
             if i % nshards != shard and stride is None:
                 pass
